@@ -76,6 +76,16 @@ CHECKS = {
               "steps quick. No absence proof."),
         note="Trusted: NumPy float64 eigvalsh/svd; the ridge-placement model per implementation stated in evidence.assumptions. One known finding (KF-C09-1) is reported, its axis class excluded and counted.",
         design="DESIGN.md section 3, C09"),
+    "C07": dict(
+        category="exploration",
+        technique="property-based testing over generated option records x parameter trees x update counts: every accepted configuration is traced with jax.eval_shape (all Python-level branches/asserts run) and a subset executed under jit + lax.scan / pmap; layout oracle = tree structure + leaf shapes/dtypes equality; exception-classification oracle",
+        text=("Generated-input search over the widest option space of distributed_shampoo (replicated, pmap, sharded), sm3 and tearfree x trees "
+              "with ranks 0-4 and unit dims x 1-3 updates (~2.8e3 configurations quick): constructor-accepted configurations must run or raise "
+              "an explicit rejection; the update tree equals the parameters' layout; the state layout after k updates equals the initial one "
+              "(also enforced by a real lax.scan carry on the executed subset); in sharded mode init state, declared shapes/dtypes and "
+              "partition specs describe one tree. Failures are bucketed per root cause (innermost repository frame). No absence proof."),
+        note="Trusted: the exception policy stated in evidence.assumptions (what counts as an explicit rejection); jax.eval_shape executes the same Python as a real trace. Domain restrictions (documented in DESIGN.md): LOBPCG only with max statistic size > 5k, sharded mode with a non-empty tree and block_size > 0.",
+        design="DESIGN.md section 3, C07"),
 }
 
 NOT_YET = {}
